@@ -712,6 +712,7 @@ Definition crule_holds (g : dg) (c : crule) : Prop :=
   | CB b => cond b g
   | CU _ (UConst o) => rejects o = false
   | CU _ (UEdgesLe k fail) => length (edge_pairs g) <= k \/ rejects fail = false
+  | CU _ (UNested bs) => forall b, In b bs -> cond b g
   end.
 
 Lemma o_edge_count_eq : forall g, o_edge_count (mk_roracle g) = length (edge_pairs g).
@@ -744,10 +745,11 @@ Qed.
 
 Lemma o_rule_holds_iff : forall g c, wf g -> (o_rule_holds (mk_roracle g) c = true <-> crule_holds g c).
 Proof.
-  intros g c Hwf. destruct c as [b|native [o|k fail]]; cbn [o_rule_holds crule_holds].
+  intros g c Hwf. destruct c as [b|native [o|k fail|bs]]; cbn [o_rule_holds crule_holds].
   - apply o_cond_iff. exact Hwf.
   - apply negb_true_iff.
   - rewrite orb_true_iff, negb_true_iff, Nat.leb_le, o_edge_count_eq. reflexivity.
+  - rewrite forallb_forall. split; intros H b Hb; apply (o_cond_iff g b Hwf); apply H; exact Hb.
 Qed.
 
 (* clause 1 of holds_l: when no configured user rule raises a foreign exception, the observed
@@ -849,4 +851,45 @@ Theorem restore_of_is_restored : forall ad g, wf g -> arg_is_restored ad g (rest
 Proof.
   intros ad g Hwf. destruct ad; cbn [arg_is_restored restore_of]; try reflexivity.
   exists (edge_pairs g). split; [reflexivity|]. split; [apply edge_pairs_NoDup|apply (edge_pairs_spec g Hwf)].
+Qed.
+
+(* ---- composite rules: a rule that delegates to an inner verifier with raise_on_failure ---- *)
+(* the inner verifier's VerificationError is a ValueError, so to the outer loop the composite
+   rule passes exactly when every inner condition holds, and never raises a foreign exception *)
+Theorem nested_rule_iff : forall s bs g, wf g ->
+  (rejects (ubehav_fn (UNested bs) (AOpt s g)) = false <-> forall b, In b bs -> cond b g) /\
+  ubehav_fn (UNested bs) (AOpt s g) <> ROther.
+Proof.
+  intros s bs g Hwf. cbn [ubehav_fn arg_graph].
+  destruct (verify_builtins_iff arg (fun g0 => AOpt true g0) true bs g Hwf) as [H1 [_ H3]].
+  destruct (verify (fun g0 => AOpt true g0) true (map builtin_rule bs) g); cbn [verdict_outcome rejects].
+  - split; [|discriminate]. split; [intros _; apply H1; reflexivity|reflexivity].
+  - split; [|discriminate]. split; [discriminate|]. intros H. apply H1 in H. discriminate.
+  - split; [|discriminate]. split; [discriminate|]. intros H. apply H1 in H. discriminate.
+  - exfalso. apply H3. reflexivity.
+Qed.
+
+(* hence an outer verifier without raise_on_failure returns a boolean on it, False when an
+   inner condition fails - whatever the inner verifier raised *)
+Theorem nested_rule_outer_boolean : forall ad native bs g, wf g ->
+  let v := verify (restore_of ad) false [denote (CU native (UNested bs))] g in
+  match ad, native with
+  | AdNx, false => True          (* the rule then works on adapt(restore g): covered by the correspondence *)
+  | _, _ => (v = Accept <-> forall b, In b bs -> cond b g) /\ (v = Accept \/ v = Reject)
+  end.
+Proof.
+  intros ad native bs g Hwf v.
+  assert (K : forall s, (verify (restore_of ad) false [Native (fun g0 => ubehav_fn (UNested bs) (AOpt s g0))] g = Accept
+                         <-> forall b, In b bs -> cond b g) /\
+                        (verify (restore_of ad) false [Native (fun g0 => ubehav_fn (UNested bs) (AOpt s g0)) : rule arg] g = Accept \/
+                         verify (restore_of ad) false [Native (fun g0 => ubehav_fn (UNested bs) (AOpt s g0)) : rule arg] g = Reject)).
+  { intros s. destruct (nested_rule_iff s bs g Hwf) as [H1 H2]. cbn [verify run_rule].
+    destruct (ubehav_fn (UNested bs) (AOpt s g)); cbn [rejects] in H1; try congruence.
+    - split; [|auto]. split; [intros _; apply H1; reflexivity|reflexivity].
+    - split; [|auto]. split; [discriminate|]. intros H. apply H1 in H. discriminate.
+    - split; [|auto]. split; [intros _; apply H1; reflexivity|reflexivity].
+    - split; [|auto]. split; [discriminate|]. intros H. apply H1 in H. discriminate. }
+  destruct native.
+  - destruct ad; exact (K true).
+  - destruct ad; [exact (K true)|exact (K false)|exact I].
 Qed.
